@@ -13,6 +13,12 @@ def build(repo, tier, seed):
                          extra_vcs=v1 + v2 + v3 + v4, extra_sanity=sanity, bounded=False)
     b["vcs"] += preset_effectiveness(repo)
     b["syntactic"] += s2 + s3 + t_syn
+    from .common import history_induction
+    h_syn, h_und = history_induction()
+    b["syntactic"] += h_syn
+    b["undecided"] += h_und
+    b["assumptions"].append("the step from the one-operation obligations (invariant established, preserved by every operation, good behaviour under the invariant) to every finite history "
+                            "is the abstract induction lean/Histories.lean, checked by the Lean 4 kernel (group Histories:lean); that the obligations instantiate its hypotheses is by inspection")
     b["undecided"] += u1 + u2 + u3 + t_und + u4
 
     def witness(group, names, seed, inner=b["witness"]):
